@@ -319,7 +319,17 @@ def conv_family(tier, seed, meta=False, err=False, kinds=None, per_class=None, d
 
 def c02(tier):
     seed = int(__import__("os").environ.get("VERIF_SEED", "0") or 0)
-    return {"instances": conv_family(tier, seed), "assumptions": COMMON_ASSUME + [
+    insts = conv_family(tier, seed)
+    # fixed core: continuation lines (with and without a trailing comment) under multi-character comment sets
+    for dn, cn in ((("eq", "both"), ("sp", "both"), ("coleq", "hash")) if tier == "quick" else [(d, c) for d in ("eq", "coleq", "sp", "sptab") for c in convgen.COMMENT_SETS]):
+        dl, cm = convgen.DELIM_SETS[dn], convgen.COMMENT_SETS[cn]
+        L = convgen.Layout(dl, cm); f = convgen.seps_for(L)[0]
+        L.entry("", 1, f, "plain1", ""); L.cont(" ", 2, "", tail=" Hc"); L.entry("", 1, f, "plain1", " Hc")
+        insts.append(conv_inst("conv-%s-%s-cont-tail" % (dn, cn), L, defs=("CHECK_KEYS",)))
+        L = convgen.Layout(dl, cm); f = convgen.seps_for(L)[0]
+        L.entry(" ", 2, f, "plain3", ""); L.cont("\t", 1, "", tail="Hcc"); L.cont("  ", 3, "")
+        insts.append(conv_inst("conv-%s-%s-cont2" % (dn, cn), L, defs=("CHECK_KEYS",)))
+    return {"instances": insts, "assumptions": COMMON_ASSUME + [
         "layouts (line kinds, which optional blanks/quotes/comments are present, field lengths) are concrete per instance: a fixed systematic sweep plus a pseudo-random sample drawn from VERIF_SEED; all field characters are symbolic over their grammar class",
         "section names / keys that are meant to be distinct are assumed distinct, re-opened sections / repeated keys are assumed equal (relations generated with the layout)"],
         "explanation": "bounded model checking of the real parser on generated conventional files with the expected result constructed alongside"}
